@@ -29,6 +29,7 @@ type verdict struct {
 	Count      int
 	Detail     string
 	nonTrivial bool
+	counted    bool // Count* was called and compared with the listing
 }
 
 func (v verdict) bad() bool { return v.Kind != "" }
@@ -113,6 +114,7 @@ func evaluate(ctx context.Context, s *site, res *resource, v variant, rows []*ro
 			return
 		}
 		out.Count = n
+		out.counted = true
 		if n != len(got) {
 			out.Kind, out.Detail = "count", fmt.Sprintf("count=%d but %d entities listed", n, len(got))
 		}
@@ -128,6 +130,7 @@ type c20Task struct {
 	v     variant
 	rows  []*row
 	forms []*F
+	from  int // offset of forms in the resource's formula list
 }
 
 type c20Stats struct {
@@ -138,6 +141,7 @@ type c20Stats struct {
 	memo        sync.Map // resource|history|variant|formulaKey -> verdict
 	minimised   atomic.Int64
 	evaluations atomic.Int64
+	counted     sync.Map // resource -> *atomic.Int64: Count* calls compared with a listing
 }
 
 type resStats struct {
@@ -147,6 +151,8 @@ type resStats struct {
 	NonTrivial   int            `json:"distinct_nontrivial"`
 	NonTrivialBy map[string]int `json:"nontrivial_evaluations_by_variant"`
 	Failing      int64          `json:"failing_evaluations"`
+	Counted      int64          `json:"count_calls_compared"`
+	AtomKinds    int            `json:"atom_kinds"`
 }
 
 var digitsRe = regexp.MustCompile(`[0-9]+`)
@@ -197,6 +203,10 @@ func (c *c20Run) memoEval(ctx context.Context, s *site, res *resource, v variant
 	}
 	vd := evaluate(ctx, s, res, v, rows, f)
 	c.st.evaluations.Add(1)
+	if vd.counted {
+		n, _ := c.st.counted.LoadOrStore(res.Name, new(atomic.Int64))
+		n.(*atomic.Int64).Add(1)
+	}
 	switch {
 	case vd.Kind == "engine":
 	case vd.bad():
@@ -338,11 +348,16 @@ func runC20() int {
 					if to > len(fs) {
 						to = len(fs)
 					}
-					tasks = append(tasks, &c20Task{res: res, hi: hi, v: v, rows: rows, forms: fs[from:to]})
+					tasks = append(tasks, &c20Task{res: res, hi: hi, v: v, rows: rows, forms: fs[from:to], from: from})
 				}
 			}
 		}
 	}
+	// Formulas are enumerated simplest first (absent filter, atoms, negated atoms, pairs,
+	// then the deeper families): run the n-th chunk of every (resource, history, variant)
+	// before any (n+1)-th chunk, so that a run cut short by the time budget has still seen
+	// every resource and variant with the formulas that discriminate most per evaluation.
+	sort.SliceStable(tasks, func(i, j int) bool { return tasks[i].from < tasks[j].from })
 	var next atomic.Int64
 	var stopped atomic.Bool
 	var wg sync.WaitGroup
@@ -448,6 +463,32 @@ func runC20() int {
 				if ps.NonTrivialBy[variantClass(vn)] == 0 {
 					r.EngineError(fmt.Sprintf("vacuous: no %s formula is non-trivial under variant %s", res.Name, vn))
 				}
+			}
+			// every kind of atom the property statement names (field × operator class ×
+			// address-pattern kind) must, on its own, have selected a proper non-empty
+			// subset somewhere: otherwise that kind of filter was only ever seen
+			// matching everything or nothing
+			kinds := map[string]bool{}
+			for _, a := range res.atoms(built[0]).all {
+				k := a.shape()
+				kinds[k] = kinds[k] || st.nontrivial[res.Name+":"+At(a).Key()]
+			}
+			ps.AtomKinds = len(kinds)
+			var dead []string
+			for k, ok := range kinds {
+				if !ok {
+					dead = append(dead, k)
+				}
+			}
+			sort.Strings(dead)
+			if len(dead) > 0 {
+				r.EngineError(fmt.Sprintf("vacuous: no %s atom of kind %v selects a proper non-empty subset on its own", res.Name, dead))
+			}
+			if n, ok := st.counted.Load(res.Name); ok {
+				ps.Counted = n.(*atomic.Int64).Load()
+			}
+			if res.count != nil && ps.Counted == 0 {
+				r.EngineError(fmt.Sprintf("vacuous: Count%s was never compared with a listing", res.Name))
 			}
 		}
 	}
